@@ -444,6 +444,18 @@ func (db *SingleBucketBackend) deleteObjectLocked(bucketName, objectName string)
 		return err
 	}
 
+	// Remove the directories the deleted key leaves empty, otherwise they keep
+	// showing up as common prefixes.
+	for dir := path.Dir(path.Clean(objectName)); dir != "." && dir != "/" && !strings.HasPrefix(dir, ".."); dir = path.Dir(dir) {
+		entries, err := afero.ReadDir(db.fs, filepath.FromSlash(dir))
+		if err != nil || len(entries) > 0 {
+			break
+		}
+		if err := db.fs.Remove(filepath.FromSlash(dir)); err != nil {
+			break
+		}
+	}
+
 	return nil
 }
 
